@@ -971,3 +971,108 @@ def walk_publication(R, I, tier):
                              z3.BoolVal(bool(why) and not any(e[5] == 'error' for e in ops[:-1])), group='walk/failure-justified')
         if first_err is None: R.reach_any(f'{label}: a walk that publishes everything is reachable', [s.pc for s in oks if len([e for e in s.events if e[0] == 'op']) == len(reachable)])
         R.samples.append({'case': label, 'paths': len(done), 'ok': len(oks)})
+
+# ------------------------------------------------------------------ TargetsEditor::add_role
+def add_role_unit(R, I, tier):
+    """a role added from a metadata file: the file requested is <base>/enc(name).json, bounded by max_targets_size; what is delegated is the parsed
+    document with its signatures under the given name, paths and threshold; its key ids are those of the supplied keys (or, without supplied
+    keys, of the document's own delegations key table); delegate_role does the rest (checked on its own)"""
+    TE = 'TargetsEditor'
+    fn = None
+    for n, fs in I.funcs.items():
+        if 'editor/targets.rs:' in n and n.endswith('>::add_role') and fs[0].args.startswith('_1: &mut TargetsEditor'): fn = fs[0]
+    if fn is None: raise Stuck('TargetsEditor::add_role not found in the MIR')
+    R.bounds['add_role'] = 'keys argument None / Some(1..2 key pairs); incoming document with or without its own delegations (key table of 1 entry); limits and transport present or missing'
+    for keys_given in (0, 1, 2):
+        for doc_has_deleg in (True, False):
+            for have_env in ((True,) if tier == 'quick' and keys_given != 1 else (True, False)):
+                label = f'add_role[{keys_given or "no"} keys supplied, incoming document {"with" if doc_has_deleg else "without"} delegations{"" if have_env else ", limits/transport not set"}]'
+                st = State(); st.env['fs'] = {}
+                kid = lambda t: Obj('keyid', uid=t); key = lambda t: Obj('key', uid=t)
+                table = Obj('smap', entries=[])
+                deleg = Adt('Delegations', None, {(None, F('Delegations', 'keys')): table, (None, F('Delegations', 'roles')): Obj('vec', elems=[])})
+                ed = Adt(TE, None, {(None, F(TE, 'name')): Obj('str', s='me'), (None, F(TE, 'key_holder')): mk_none(), (None, F(TE, 'delegations')): mk_some(deleg),
+                                    (None, F(TE, 'new_targets')): mk_none(), (None, F(TE, 'existing_targets')): mk_none(), (None, F(TE, 'version')): mk_none(), (None, F(TE, 'expires')): mk_none(),
+                                    (None, F(TE, 'new_roles')): mk_none(), (None, F(TE, '_extra')): mk_none(),
+                                    (None, F(TE, 'limits')): mk_some(Adt('Limits', None, {(None, F('Limits', 'max_targets_size')): z3.BitVec('max_targets_size', 64)})) if have_env else mk_none(),
+                                    (None, F(TE, 'transport')): mk_some(Adt('Box<dyn Transport>', None, {(None, 0): Ref(st.alloc(Obj('dyn_transport')))})) if have_env else mk_none()})
+                own = Adt('Delegations', None, {(None, F('Delegations', 'keys')): Obj('smap', entries=[(kid('own-id'), key('own-key'))]), (None, F('Delegations', 'roles')): Obj('vec', elems=[])})
+                doc = Adt('Targets', None, {(None, 'uid'): 'doc-INCOMING', (None, F('Targets', 'delegations')): mk_some(own) if doc_has_deleg else mk_none()})
+                parsed = Adt('Signed', None, {(None, F('Signed', 'signed')): doc, (None, F('Signed', 'signatures')): Obj('vec', elems=[], uid='sigs-INCOMING')})
+                supplied = [(kid(f'sup-id{i}'), key(f'sup-key{i}')) for i in range(keys_given)]
+                keys_arg = mk_some(Obj('smap', entries=supplied)) if keys_given else mk_none()
+                def m_parse_url(I_, s, fr, c, a, d, de, rb):
+                    okf = z3.Bool(fresh_name('url_ok')); base = dr(I_, s, a[0]).d.get('s')
+                    return Forks([(okf, mk_ok(Obj('url', base=base)), None), (z3.Not(okf), mk_err(error('ParseUrl')), None)])
+                def m_enc(I_, s, fr, c, a, d, de, rb): return Obj('str', s=None, pieces=['{enc(%s)}' % dr(I_, s, a[0]).d.get('s')])
+                def m_join(I_, s, fr, c, a, d, de, rb):
+                    okf = z3.Bool(fresh_name('join_ok')); u = dr(I_, s, a[0])
+                    return Forks([(okf, mk_ok(Obj('url', base=u.d.get('base'), file=path_key(I_, s, a[1]))), None), (z3.Not(okf), mk_err(Obj('url_parse_error')), None)])
+                def m_fetch(I_, s, fr, c, a, d, de, rb):
+                    u = dr(I_, s, a[1]); return leaf_future('c10a_fetch', url=(u.d.get('base'), u.d.get('file')), max_size=mat(I_, s, a[2]))
+                def op_fetch(I_, s, fut):
+                    okf = z3.Bool(fresh_name('fetch_ok'))
+                    return Forks([(okf, mk_ready(mk_ok(Obj('stream', url=fut.d['url']))), lambda s2: s2.events.append(('fetch', fut.d['url'], fut.d['max_size']))), (z3.Not(okf), mk_ready(mk_err(error('Transport'))), None)])
+                LEAF_OPS['c10a_fetch'] = op_fetch
+                def m_into_vec(I_, s, fr, c, a, d, de, rb): return leaf_future('c10a_into_vec', url=dr(I_, s, a[0]).d['url'])
+                def op_into_vec(I_, s, fut):
+                    okf = z3.Bool(fresh_name('body_ok'))
+                    return Forks([(okf, mk_ready(mk_ok(Obj('vec', content=('remote', fut.d['url'])))), None), (z3.Not(okf), mk_ready(mk_err(Obj('terror', tkind=None))), None)])
+                LEAF_OPS['c10a_into_vec'] = op_into_vec
+                def m_from_slice(I_, s, fr, c, a, d, de, rb):
+                    v = dr(I_, s, a[0]); okf = z3.Bool(fresh_name('parse_ok'))
+                    return Forks([(okf, mk_ok(stdm.deep_clone(I_, s, parsed)), lambda s2: s2.events.append(('parsed', v.d.get('content')))), (z3.Not(okf), mk_err(Obj('serde_error')), None)])
+                def m_keys(I_, s, fr, c, a, d, de, rb):
+                    m = dr(I_, s, a[0]); return Obj('iter', vec=Ref(s.alloc(Obj('vec', elems=[s.alloc(k) for k, _ in m.d['entries']]))), pos=0, owned=False)
+                def m_collect(I_, s, fr, c, a, d, de, rb):
+                    it = dr(I_, s, a[0]); vec = dr(I_, s, it.d['vec'])
+                    return Obj('vec', elems=[s.alloc(clone(s.heap[c_])) for c_ in vec.d['elems'][it.d['pos']:]])
+                def m_delegate(I_, s, fr, c, a, d, de, rb):
+                    s.events.append(('delegate_role', mat(I_, s, a[1]), mat(I_, s, a[2]), mat(I_, s, a[3]), mat(I_, s, a[4]), mat(I_, s, a[5])))
+                    okf = z3.Bool(fresh_name('delegate_ok'))
+                    return Forks([(okf, mk_ok(a[0]), None), (z3.Not(okf), mk_err(error('NoDelegations')), None)])
+                ms = [(RXc(r'^(editor::)?targets::parse_url$'), m_parse_url), (RXc(r'^encode_filename::<'), m_enc), (RXc(r'^Url::join$'), m_join), (RXc(r'^fetch_max_size$'), m_fetch),
+                      (RXc(r'as IntoVec<TransportError>>::into_vec'), m_into_vec), (RXc(r'^from_slice::<'), m_from_slice), (RXc(r'^HashMap::<Decoded<Hex>, key::Key>::keys$'), m_keys),
+                      (RXc(r'^<std::collections::hash_map::Keys<.*> as Iterator>::cloned::<'), m_identity), (RXc(r'^<Cloned<std::collections::hash_map::Keys<.*>> as Iterator>::collect::<Vec<'), m_collect),
+                      (RXc(r'^TargetsEditor::delegate_role$'), m_delegate), (RXc(r'^<Box<dyn Transport> as AsRef<dyn Transport>>::as_ref$'), m_identity), (RXc(r'^<std::string::String as Deref>::deref$'), m_identity),
+                      (RXc(r'^<Vec<u8> as Deref>::deref$'), m_identity), (RXc(r'^must_use::<'), m_identity),
+                      (RXc(r'^<str as ToString>::to_string$'), lambda I_, s, fr, c, a, d, de, rb: clone(dr(I_, s, a[0]))), (RXc(r'^<(Url|Vec<schema::Signature>) as Clone>::clone$'), stdm.m_clone_deep)] + editor.install_format_models() + stdm.STD_MODELS
+                saved = list(I.models); I.models[:0] = ms
+                try:
+                    cell = st.alloc(ed)
+                    thr = z3.BitVec('role_threshold', 64)
+                    st.frames.append(ModelFrame(h_async_driver, {'phase': 0, 'ctor': fn, 'args': [Ref(cell), Obj('str', s='NEW ROLE'), Obj('str', s='BASE'), Obj('pathset', uid='paths-NEW'), thr, keys_arg], 'generics': None}))
+                    done = []; I.run(st, done.append)
+                finally:
+                    I.models[:] = saved
+                R.check_interp_clean(I, label)
+                oks = []
+                for s in done:
+                    R.paths += 1
+                    tag, _ = classify(s.result)
+                    fetches = [e for e in s.events if e[0] == 'fetch']; dels = [e for e in s.events if e[0] == 'delegate_role']
+                    for e in fetches:
+                        R.obligation(f'{label}: the only file requested is <base>/enc(name).json, bounded by max_targets_size', s.pc,
+                                     z3.And(z3.BoolVal(e[1] == ('BASE', '{enc(NEW ROLE)}.json') and len(fetches) == 1), e[2] == z3.BitVec('max_targets_size', 64)), group='add_role/fetch')
+                    if tag != 'Ok':
+                        continue
+                    oks.append(s)
+                    good = False
+                    if len(dels) == 1 and have_env and len(fetches) == 1:
+                        _, sg, paths, pairs, ids, th = dels[0]
+                        try:
+                            dt = fld(sg, 'Signed', 'signed')
+                            okdoc = dr(I, s, fld(dt, 'DelegatedTargets', 'name')).d.get('s') == 'NEW ROLE' and fld(dt, 'DelegatedTargets', 'targets').fields.get((None, 'uid')) == 'doc-INCOMING' and dr(I, s, fld(sg, 'Signed', 'signatures')).d.get('uid') == 'sigs-INCOMING'
+                            want = [f'sup-id{i}' for i in range(keys_given)] if keys_given else ['own-id']
+                            wantk = [f'sup-key{i}' for i in range(keys_given)] if keys_given else ['own-key']
+                            got_ids = [dr(I, s, Ref(c_)).d.get('uid') for c_ in dr(I, s, ids).d['elems']]
+                            got_pairs = [(dr(I, s, k_).d.get('uid'), dr(I, s, v_).d.get('uid')) for k_, v_ in dr(I, s, pairs).d['entries']]
+                            good = okdoc and dr(I, s, paths).d.get('uid') == 'paths-NEW' and got_ids == want and got_pairs == list(zip(want, wantk))
+                            R.obligation(f'{label}: the threshold is passed on unchanged', s.pc, th == thr, group='add_role/delegated')
+                        except (AttributeError, KeyError, TypeError): good = False
+                    R.obligation(f'{label}: Ok => exactly one role is delegated: the parsed document and its signatures under the given name and paths, key ids = ids of the supplied keys (else of the document\'s own key table), key pairs = those keys', s.pc,
+                                 z3.BoolVal(bool(good)), group='add_role/delegated')
+                    if not keys_given and not doc_has_deleg:
+                        R.obligation(f'{label}: without supplied keys and without a key table in the document there is nothing to verify the role with: must be refused', s.pc, z3.BoolVal(False), group='add_role/delegated')
+                if have_env and (keys_given or doc_has_deleg): R.reach_any(f'{label}: success reachable', [s.pc for s in oks])
+                R.samples.append({'case': label, 'paths': len(done), 'ok': len(oks)})
